@@ -8,7 +8,7 @@ from ..progprop import ProgramProperty, results, is_exc, init_step, Getter, have
 
 class C06(ProgramProperty):
     id = "C06"
-    theorems = []
+    theorems = ["C06_prefix", "C06_prefix_idem", "C06_curie", "C06_uri", "C06_curie_idem_partial", "C06_curie_meaning_partial", "C06_curie_idem_fails_without_delimOK", "C06_uri_idem", "C06_uri_meaning", "C06_uri_idem_needs_prefixfree"]
     lean_modules = ["CuriesVerif.Properties.C06"]
     rule = ("one case = one strict converter (half from the prefix-free generator; a low-rate stream plants a "
             "canonical prefix that contains the delimiter, known finding K1) with 4 prefixes, 5 CURIEs and 5 URIs "
